@@ -18,6 +18,8 @@ if HERE not in sys.path:
     sys.path.insert(0, HERE)       # c06_common (the script directory is sys.path[0] anyway)
 sys.dont_write_bytecode = True
 
+import c06_faults as cf  # noqa: E402  (exception catalogue, fault plans, injector; no yaw / mpi4py import)
+
 
 class JobError(Exception):
     """raised by the job function of the failing-job dispatch scenario; args[0] = the task value"""
@@ -50,6 +52,12 @@ class IterTracer:
             if rank == 0:
                 iterable = list(iterable)
                 rec["ntasks"] = len(iterable)
+            # (v) a fault plan armed for this rank (c06_faults.FAULTS): items tagged with their position, every execution
+            # recorded (simulator log: op "xexec") and failed as planned
+            w = cf.FAULTS.wrap(func, iterable, kwargs, rank, k, parallel.COMM.Get_rank, tracer.mark_exec)
+            if w is not None:
+                func, iterable, kwargs = w
+                rec["faulted"] = True
 
             def func2(*a, **kw):
                 try:
@@ -68,10 +76,12 @@ class IterTracer:
                 rec["outcome"] = ["returned"]
             except Exception as err:
                 rec["outcome"] = ["raised", type(err).__name__, str(err)[:160]]
+                rec["errno"] = cf.describe(err)[2]
                 raise
             finally:
                 tracer.mark(rank, "end", k)
 
+        traced._c06_traced = True
         parallel.iter_unordered = traced
 
     def reset(self):
@@ -81,6 +91,12 @@ class IterTracer:
         w = self.MPI._world
         with w.lock:
             w._log(rank, "mark:" + what, None, None, 0, "ep%d" % k)
+
+    def mark_exec(self, rank, ep, item, attempt, failed):
+        """one call of the job function of a faulted iter_unordered call, in the order of the simulator log"""
+        w = self.MPI._world
+        with w.lock:
+            w._log(rank, "xexec", None, None, 0, "%d:%d:%d:%d" % (ep, item, attempt, int(failed)))
 
     def episodes(self, log, size):
         """[{ep, ranks: {rank: record}, complete, log: the events of the episode on COMM_WORLD}]"""
@@ -247,18 +263,30 @@ def wrap_consumer(it, consumer, nitems, sink):
 
 def run_dispatch(MPI, parallel, size, j, timeout):
     tasks = list(j["tasks"])
-    consumer = j.get("consumer") or ("for" if j.get("bad") is not None else "list")   # failing jobs: what was yielded before counts
+    consumer = j.get("consumer") or ("for" if (j.get("bad") is not None or j.get("fault") is not None) else "list")   # failing jobs: what was yielded before counts
     stop = j.get("stop")          # the consumer asks for at most this many items (itertools.islice / break)
     mw = j.get("max_workers")
     node_only = bool(j.get("node_only"))
     sched0 = dict(j.get("sched") or {})
     bad = set(j["bad"]) if j.get("bad") is not None else None
+    plan = cf.Plan(j["fault"]) if j.get("fault") is not None else None     # (v) transient failures, execution counts
 
     def one(sched):
         executed = []
         lock = threading.Lock()
+        inj = cf.Injector()
+
+        def mark_exec(rank, ep, item, attempt, failed):
+            w = MPI._world
+            with w.lock:
+                w._log(rank, "xexec", None, None, 0, "%d:%d:%d:%d" % (ep, item, attempt, int(failed)))
+            with lock:
+                executed.append([rank, tasks[item], attempt, bool(failed)])
 
         def f(t):
+            if plan is not None:
+                # every execution is recorded (task, rank, number of earlier executions, failed?) and fails as planned
+                return inj.execute(plan, 0, tasks.index(t), len(tasks), parallel.COMM.Get_rank(), lambda: 3 * t + 1, mark_exec)
             with lock:
                 executed.append([parallel.COMM.Get_rank(), t])
             if bad is not None and t in bad:
@@ -277,6 +305,14 @@ def run_dispatch(MPI, parallel, size, j, timeout):
                             break
                     return got
                 return list(itertools.islice(it, stop))
+            if plan is not None:
+                got = []
+                try:
+                    for x in wrap_consumer(it, consumer, len(tasks), got):
+                        got.append(x)
+                except Exception as err:
+                    return {"got": got, "raised": cf.describe(err)}
+                return {"got": got, "raised": None}
             if bad is None:
                 got = []
                 for x in wrap_consumer(it, consumer, len(tasks), got):
@@ -362,14 +398,18 @@ def run_refusal(MPI, size, j, timeout, cc, tracer=None):
     if trace:
         tracer.reset()
         tracer.on = True
+    cf.FAULTS.reset()
     try:
         run = MPI.run_world(size, MPI.Schedule.from_dict(j.get("sched")), body, timeout)
     finally:
         if tracer is not None:
             tracer.on = False
+        for r in range(size):
+            cf.FAULTS.disarm(r)
     p = pack(run, keep_log=False)
     if trace:
         p["episodes"] = tracer.episodes(run["log"], size)
+    p["xlog"] = list(cf.FAULTS.xlog)        # every execution of a job while a fault plan was armed: [episode, item, rank, earlier executions, failed]
     p["sched"] = j.get("sched")
     p["first"] = {str(r): v for r, v in sorted(first.items())}
     p["ctraces"] = collective_traces(run["log"], size)
